@@ -214,7 +214,13 @@ Definition tip_store (rows : Z) (s : list Z) : R (list Z) :=
          else tip_cycle (S (length s)) rows mn cycle cycle vis s)
        (map (fun c => c + 1) (zseq (mn - 1))) (map (fun _ => false) s, s) ;;
   ROk (snd r).
+(* Tip at HEAD (2ffe99c): a transposed matrix only clears its flag (its storage already is the
+   row-major order of the transpose); otherwise the storage is permuted; then rows/cols, the
+   offsets and the maxima are exchanged in both cases *)
 Definition mTip (H : heap) (m : mat) : R (heap * mat) :=
+  if d_transposed m then
+    ROk (H, mkDense (d_values m) (d_cols m) (d_rows m) (d_colOffset m) (d_colMax m) (d_rowOffset m) (d_rowMax m) false)
+  else
   s <- tip_store (d_rows m) (store_of H (d_values m)) ;;
   ROk (set_store H (d_values m) s,
        mkDense (d_values m) (d_cols m) (d_rows m) (d_colOffset m) (d_colMax m) (d_rowOffset m) (d_rowMax m) (d_transposed m)).
